@@ -33,8 +33,8 @@ func (e *eng) disasm() {
 	bt := "types/bytecode"
 	strFn := p.Method(bt, "Type", "String")
 	conv := p.Func(bt, "convImm")
-	if strFn == nil || conv == nil {
-		s.Unk("ANCHOR", "bytecode.Type.String / convImm", "-", "functions not found")
+	if strFn == nil {
+		s.Unk("ANCHOR", "bytecode.Type.String", "-", "method not found")
 		return
 	}
 	pos := p.Pos(strFn.Pos())
@@ -44,7 +44,7 @@ func (e *eng) disasm() {
 	// the operand renderer: the function(s) of the package String hands a
 	// (kind, address) pair to -- (uint64, int) -> string
 	isRenderer := func(fn *ssa.Function) bool {
-		if fn == nil || fn.Pkg == nil || fn.Pkg != strFn.Pkg || fn == conv {
+		if fn == nil || fn.Pkg == nil || fn.Pkg != strFn.Pkg || (conv != nil && fn == conv) {
 			return false
 		}
 		sig := fn.Signature
@@ -70,8 +70,14 @@ func (e *eng) disasm() {
 		e.globals = pkgGlobals
 	}
 	in.Hooks.Call = func(in *absint.Interp, callee *ssa.Function, args []absint.Val, site ssa.Instruction) (absint.Val, bool) {
-		if callee == conv {
+		if conv != nil && callee == conv {
 			return &absint.Sym{Op: "decoded", Args: []absint.Val{args[0]}, T: intT}, true
+		}
+		// an address accessor applied to the word: the address of that slot
+		if k, isAcc := e.addrFns[callee]; isAcc && len(args) == 1 {
+			if v, ok := args[0].(*absint.Sym); ok && v.Op == "var" && v.Name == "INSTR" {
+				return &absint.Sym{Op: "addrslot", Name: fmt.Sprint(k), T: intT}, true
+			}
 		}
 		if callee.Pkg != strFn.Pkg {
 			// what is handed to the library (a strings.Builder, fmt.Fprintf)
@@ -83,7 +89,7 @@ func (e *eng) disasm() {
 		}
 		// the opcode handed to a function of the package (its String method, a
 		// name table) is the opcode being rendered
-		if callee != conv && !isRenderer(callee) && len(args) >= 1 && e.opField != nil {
+		if (conv == nil || callee != conv) && !isRenderer(callee) && len(args) >= 1 && e.opField != nil {
 			if fs, ok := fields(args[0]); ok && len(fs) == 1 && fs[0].src == "INSTR" && fs[0].rshift == e.opField.lshift && fs[0].mask == e.opField.mask {
 				if callee.Signature.Results().Len() == 1 {
 					if bt, isB := callee.Signature.Results().At(0).Type().Underlying().(*types.Basic); isB && bt.Kind() == types.String {
@@ -102,6 +108,13 @@ func (e *eng) disasm() {
 			if d, ok := args[1].(*absint.Sym); ok && d.Op == "decoded" {
 				if fs, ok := fields(d.Args[0]); ok && len(fs) == 1 {
 					c.addr, c.okA = fs[0], true
+				}
+			}
+			if d, ok := args[1].(*absint.Sym); ok && d.Op == "addrslot" {
+				for k, r := range e.readers {
+					if fmt.Sprint(k) == d.Name {
+						c.addr, c.okA = r.addr, true
+					}
 				}
 			}
 			calls = append(calls, c)
